@@ -2,8 +2,15 @@
    limits), the finite table lower-cased-name |-> real SHA-1 NSEC3 hash (under the first
    record's salt and iteration count) and the Proof that the real verify_nsec3 returned;
    the model is re-run with the table as its hash function and compared. *)
+From Coq Require Uint63.
 From HV Require Import Lib.Base Lib.Pack C09.Model.
 Open Scope N_scope.
+
+(* packed bytes with a monomorphic spine (no implicit arguments to infer: about twice as fast to
+   elaborate as a list literal) *)
+Inductive il := IN | IC (w : Uint63.int) (l : il).
+Fixpoint il_list (l : il) : list Uint63.int := match l with IN => [] | IC w l' => w :: il_list l' end.
+Definition PBm (n : N) (l : il) : pbytes := PB n (il_list l).
 
 (* names travel in wire form: <len><bytes>... without the terminating zero *)
 Fixpoint parse_labels (fuel : nat) (bs : list byte) : name :=
@@ -26,20 +33,18 @@ Definition rec_of (r : rech) : nsec3 :=
   end.
 
 (* answers: 0 = a record that is not an RRSIG, n+1 = an RRSIG with num_labels = n.
-   table: the 20-byte hashes, concatenated, of the names [hash_names qname] in that order.
+   codes/table: the names whose digests are shipped, and their 20-byte digests concatenated in
+   that order; code 2k = the lower-cased query name without its k leftmost labels, 2k+1 = "*."
+   in front of that.  The harness ships every suffix and the wildcard of every suffix that some
+   record matches (all the model can ask for); anything else reads as 20 zero bytes, which makes
+   a model that asks for more disagree loudly.
    obs: 0 Secure, 1 Insecure, 2 Bogus, 3 panic, 4 Indeterminate (never produced) *)
 Inductive case :=
   Case (qname : pbytes) (qtype : N) (soa : option pbytes) (rcode : N) (answers : list N)
-       (recs : list rech) (soft hard : N) (table : pbytes) (obs : N).
+       (recs : list rech) (soft hard : N) (codes : list N) (table : pbytes) (obs : N).
 
-(* every suffix of the lower-cased query name, each followed by its wildcard child when that is
-   still a legal name: all the names verify_nsec3 can hash *)
-Fixpoint hash_names (q : name) : list name :=
-  let w := if (255 <? enc_len q + 2)%nat then [] else [[42] :: q] in
-  match q with
-  | [] => [] :: w
-  | _ :: q' => (q :: w) ++ hash_names q'
-  end.
+Definition name_of_code (lq : name) (c : N) : name :=
+  let s := skipn (N.to_nat (c / 2)) lq in if N.odd c then [42] :: s else s.
 
 Fixpoint chunks20 (fuel : nat) (bs : list byte) : list (list byte) :=
   match fuel with
@@ -54,16 +59,16 @@ Definition obs_of (r : result) : N :=
 
 Definition run (c : case) : result :=
   match c with
-  | Case q qt soa rc ans recs soft hard tbl _ =>
+  | Case q qt soa rc ans recs soft hard codes tbl _ =>
       let qn := un_name q in
       let hs := unpack tbl in
-      let t := combine (hash_names (lower_name qn)) (chunks20 (length hs) hs) in
+      let t := combine (map (name_of_code (lower_name qn)) codes) (chunks20 (length hs) hs) in
       verify_nsec3 (Htab t) qn qt (option_map un_name soa) rc (map ans_of ans) (map rec_of recs) soft hard
   end.
 
 Definition check (c : case) : bool :=
   match c with
-  | Case _ _ _ _ _ _ _ _ _ obs => N.eqb (obs_of (run c)) obs
+  | Case _ _ _ _ _ _ _ _ _ _ obs => N.eqb (obs_of (run c)) obs
   end.
 
 Definition bad (cs : list case) : list N := bad_idx check 0 cs.
